@@ -32,6 +32,7 @@ type SpecEnv struct {
 	shadow     map[string]bool // names bound by quantifiers (take precedence over locals)
 	fn         *ssa.Function
 	depth      int
+	freshBase  *Term // call sites: fresh(x) in an assumed postcondition means allocated by the callee (>= watermark at the call)
 }
 
 func (e *SpecEnv) errorf(format string, a ...interface{}) {
@@ -579,6 +580,13 @@ func (e *SpecEnv) evalBinary(n *ast.BinaryExpr) Value {
 	if sv, ok := a.(SliceV); ok && bU {
 		return e.cmpNil(n.Op, Eq(sv.Arr, IntLit(0)))
 	}
+	// addresses of local objects (&x, new(T) of an opaque type): compare their object references
+	if lv, ok := a.(LocV); ok && lv.Obj != nil {
+		a = Scalar{T: lv.Obj, Ty: lv.Ty}
+	}
+	if lv, ok := b.(LocV); ok && lv.Obj != nil {
+		b = Scalar{T: lv.Obj, Ty: lv.Ty}
+	}
 	if cv, ok := a.(ClosureV); ok {
 		a = Scalar{T: cv.Ref, Ty: cv.Ty}
 	}
@@ -770,6 +778,13 @@ func (e *SpecEnv) evalCall(n *ast.CallExpr) Value {
 		}
 		e.errorf("arr of non-slice")
 		return UnknownV{}
+	case "errarr":
+		// errarr(e): backing array of the text of an error made by errors.New (0 when unknown to the ghost state)
+		if v, ok := argv(0).(IfaceV); ok {
+			return Scalar{T: x.objGet(e.st, "ErrText.arr", IntS, v.Val), Ty: nil}
+		}
+		e.errorf("errarr of non-error")
+		return UnknownV{}
 	case "off":
 		if v, ok := argv(0).(SliceV); ok {
 			return Scalar{T: v.Off, Ty: tyInt}
@@ -896,6 +911,11 @@ func (e *SpecEnv) evalCall(n *ast.CallExpr) Value {
 			r = v.Arr
 		case IfaceV:
 			r = v.Val
+		case LocV:
+			r = v.Obj
+		}
+		if r != nil && e.freshBase != nil {
+			return Scalar{T: IntCmp(">=", r, e.freshBase), Ty: tyBool}
 		}
 		if r != nil && x.Entry != nil {
 			return Scalar{T: IntCmp(">=", r, x.Entry.Next), Ty: tyBool}
